@@ -31,8 +31,7 @@ ASSUMPTIONS = ["Go int arithmetic modelled on unbounded Z (day numbers < 2^31)",
                "tillage dates outside (sowing, harvest] of every crop (inside: the run is aborted with an error — not modelled)",
                "scheduled events: automation switches off (AUTOFERT replaces the fertiliser file, AUTOIRRI the irrigation file); the organic "
                "fertiliser of automatic management and the crop-skip branch are covered by separate runs with AUTOFERT on",
-               "crop skip: cursor, ZTDG[k] and the next tillage date are tied; the pool changes of the skip happen inside the harvest call "
-               "(resid) and are not separable there"]
+               "crop skip: cursor, ZTDG[k], the next tillage date and the pool changes (against a replay of the same harvest call without skip) are tied"]
 
 FMTS = ["DateDEshort", "DateDElong", "DateENshort", "DateENlong"]
 D0 = datetime.date(1900, 12, 31)
@@ -434,6 +433,9 @@ def correspond(ctx):
             c.mismatches.append({"kind": "run-failed", "case": cs["idx"], "special": cs["special"],
                                  "err": (cs["run"] or {}).get("err", "no run record")})
             continue
+        if cs["init"]["autofert"] or cs["init"]["autoirri"] or cs["init"]["automan"] or cs["init"]["autohar"]:
+            c.mismatches.append({"kind": "automation-switches", "case": cs["idx"], "what": "all four switches are off on the batch line",
+                                 "state": [cs["init"][k] for k in ("automan", "autofert", "autoirri", "autohar")]})
         if cs["init"]["beginn"] != cs["B"] or cs["init"]["ende"] != cs["E"]:
             c.mismatches.append({"kind": "period", "case": cs["idx"], "expected": [cs["B"], cs["E"]],
                                  "observed": [cs["init"]["beginn"], cs["init"]["ende"]]})
@@ -486,7 +488,7 @@ def correspond(ctx):
     else:
         oc = Corr()
         groups = c16.build_records(ocases, oc, table)
-        c16.eval_groups(ctx, oc, groups, "C10org", only=("af", "hcur", "odueng"))
+        c16.eval_groups(ctx, oc, groups, "C10org", only=("af", "hcur", "skip", "odueng"))
         c.mismatches += oc.mismatches
         g = {name: lst for name, lst, _, _, _ in groups}
         for _, cs_, r in g["af"]:
@@ -498,6 +500,7 @@ def correspond(ctx):
         c.dist["organic-replays-ok"] = sum(1 for _, _, r in g["af"] if r["replay"] == "ok")
         c.dist["crop-skips"] = sum(1 for _, _, r in g["hcur"] if r["adv"] >= 2)
         c.dist["harvest-cursor-records"] = len(g["hcur"])
+        c.dist["crop-skip-replays"] = len(g["skip"])
         c.dist["organic-split-records"] = len(g["odueng"])
         c.cases += oc.cases
     c.cases += len(good) + len(drecs)
